@@ -16,10 +16,17 @@ import (
 )
 
 func toGeoJSON(c *api.Context, renderable b6.Geometry) (geojson.GeoJSON, error) {
-	if renderable != nil {
+	if renderable != nil && hasGeometry(renderable) {
 		return renderable.ToGeoJSON(), nil
 	}
 	return geojson.NewFeatureCollection(), nil
+}
+
+// hasGeometry returns false for values that implement b6.Geometry without
+// having one, like the generic features used for expressions, which can't
+// be rendered.
+func hasGeometry(g b6.Geometry) bool {
+	return g.GeometryType() != b6.GeometryTypeInvalid
 }
 
 func toGeoJSONCollection(c *api.Context, renderables b6.Collection[interface{}, b6.Geometry]) (geojson.GeoJSON, error) {
@@ -31,6 +38,9 @@ func toGeoJSONCollection(c *api.Context, renderables b6.Collection[interface{}, 
 		ok, err = i.Next()
 		if !ok || err != nil {
 			break
+		}
+		if i.Value() == nil || !hasGeometry(i.Value()) {
+			continue
 		}
 		rendered := i.Value().ToGeoJSON()
 		switch r := rendered.(type) {
